@@ -140,6 +140,10 @@ func (g *Gen) refreshProposals() {
 		if g.R.Intn(15) == 0 && last.ActivationBlockNumber > 0 {
 			act = last.ActivationBlockNumber - 1
 		}
+		if g.R.Intn(12) == 0 && len(ks) >= 2 {
+			// the same address twice in the keyper list: never a valid configuration
+			ks = append(append([]common.Address{}, ks...), ks[0])
+		}
 		g.props = append(g.props, app.BatchConfig{ActivationBlockNumber: act, Keypers: ks, Threshold: th, KeyperConfigIndex: idx})
 	}
 	// near-identical competitors: same config except for one field (threshold, keyper order,
